@@ -156,10 +156,11 @@ type State struct {
 	published map[string]bool
 	pathID    string
 	facts     map[string]bool
-	arrVals   map[string]Value    // "base|idx" -> value stored in a freshly allocated array (static knowledge)
-	seq       int                 // logical time: bumped by allocations and havocs
-	freshSeq  map[string]int      // fresh ref -> seq at allocation
-	roots     map[string]rootInfo // heap key -> unknown array constant underlying the current version
+	arrVals   map[string]Value           // "base|idx" -> value stored in a freshly allocated array (static knowledge)
+	seq       int                        // logical time: bumped by allocations and havocs
+	freshSeq  map[string]int             // fresh ref -> seq at allocation
+	roots     map[string]rootInfo        // heap key -> unknown array constant underlying the current version
+	ownKeys   map[string]map[string]bool // fresh ref -> heap keys written at it (to carry private objects across havoc)
 }
 
 type rootInfo struct {
@@ -204,6 +205,14 @@ func (st *State) clone() *State {
 	n.roots = make(map[string]rootInfo, len(st.roots))
 	for k, v := range st.roots {
 		n.roots[k] = v
+	}
+	n.ownKeys = make(map[string]map[string]bool, len(st.ownKeys))
+	for k, v := range st.ownKeys {
+		m := make(map[string]bool, len(v))
+		for kk := range v {
+			m[kk] = true
+		}
+		n.ownKeys[k] = m
 	}
 	return &n
 }
@@ -379,9 +388,13 @@ func (e *Exec) cur(st *State, key string, leafSort Sort, two bool) Term {
 		return t
 	}
 	s := e.heapSort(key, leafSort, two)
-	t := e.declare(h0Name(key, st.epoch), s)
+	ep, epSeq := st.epoch, st.epochSeq
+	if immutableGhost(key) {
+		ep, epSeq = 0, 0 // never havocked: one array for the whole function
+	}
+	t := e.declare(h0Name(key, ep), s)
 	st.heap[key] = t
-	st.roots[key] = rootInfo{t, st.epochSeq}
+	st.roots[key] = rootInfo{t, epSeq}
 	e.rootWF(st, key, t, two)
 	if strings.HasPrefix(key, "ghost:") && !strings.Contains(key, "$") && !two {
 		for ref, seq := range st.freshSeq {
@@ -400,6 +413,9 @@ func (e *Exec) curIn(snap *HeapView, key string, leafSort Sort, two bool) Term {
 		return t
 	}
 	s := e.heapSort(key, leafSort, two)
+	if immutableGhost(key) {
+		return e.declare(h0Name(key, 0), s)
+	}
 	return e.declare(h0Name(key, snap.epoch), s)
 }
 
@@ -490,6 +506,14 @@ func (e *Exec) storePlace(st *State, p *Place, v Value) {
 	keys, leaves, two := placeLeaves(p)
 	if len(v.L) != len(leaves) {
 		panic(fmt.Sprintf("storePlace: %s has %d leaves, value of %v has %d", p, len(leaves), v.T, len(v.L)))
+	}
+	if st.fresh[p.Base.S] {
+		if st.ownKeys[p.Base.S] == nil {
+			st.ownKeys[p.Base.S] = map[string]bool{}
+		}
+		for _, k := range keys {
+			st.ownKeys[p.Base.S][k] = true
+		}
 	}
 	for i, k := range keys {
 		e.keyKind[k] = leaves[i].Kind
@@ -604,6 +628,33 @@ func (e *Exec) havocAll(st *State) {
 			}
 		}
 	}
+	// objects this function allocated and has not handed to anyone keep their contents
+	type keep struct {
+		key  string
+		ref  string
+		old  Term
+		sort Sort
+	}
+	var keeps []keep
+	for ref, ks := range st.ownKeys {
+		if st.published[ref] {
+			continue
+		}
+		for k := range ks {
+			if arr, ok := st.heap[k]; ok && strings.HasPrefix(string(arr.Sort), "(Array Int ") {
+				keeps = append(keeps, keep{k, ref, arr, arr.Sort})
+			}
+		}
+	}
+	defer func() {
+		for _, kp := range keeps {
+			nw := e.cur(st, kp.key, elemSort(kp.sort), false)
+			if nw.Sort != kp.sort {
+				continue
+			}
+			st.assert(Eq(Select(nw, Term{kp.ref, SInt}), Select(kp.old, Term{kp.ref, SInt})))
+		}
+	}()
 	st.epoch = e.nextEpoch()
 	st.seq++
 	st.epochSeq = st.seq
